@@ -23,10 +23,25 @@ def script_worker(args):
 
 
 def tier_budget(tier, quick_s, thorough_s):
+    from vlib import report
+    report.TIER[0] = tier          # run_pool interleaves the families of work items in the thorough tier
     env = os.environ.get('VERIF_BUDGET_S')
     if env:
         return float(env)
     return thorough_s if tier == 'thorough' else quick_s
+
+
+def fit_item_budgets(items, total_s):
+    """Thorough tiers with few, long work items: cap every item's own time budget so that all of them are handed out
+    within the tier's budget (items run in waves of one per worker process)."""
+    import math
+    procs = int(os.environ.get('VERIF_PROCS') or min(16, os.cpu_count() or 4))
+    waves = max(1, math.ceil(len(items) / max(1, procs)))
+    cap = total_s / waves
+    for it in items:
+        if isinstance(it, dict) and 'budget_s' in it:
+            it['budget_s'] = min(it['budget_s'], cap)
+    return items
 
 
 SCRIPT_ASSUMPTIONS = [
